@@ -298,6 +298,11 @@ def metaKids (rows : List Cells) (settings : Cells) : List QData :=
     [({ name := "instanceName".toList, bind := true, control := false, node := true } : QData)] else []
   audit ++ iid ++ iname
 
+/-- "Cannot omit instanceID, it is required for encryption." (xls2json.py 1416-1418): `omit_instanceID` truthy
+    together with a `public_key` setting is rejected -/
+def omitWithKey (settings : Cells) : Bool :=
+  (match get settings "omit_instanceID" with | some v => yesNoTrue v | none => false) && has settings "public_key"
+
 /-- rows of question type not in the type table (raised later by the builder as
     "Unknown question type") -/
 def unknownTypeRows (lists : List Str) : Nat → List Cells → List Nat
